@@ -667,9 +667,9 @@ class C20(PropertyCheck):
                 sel = [prev[i] for i in op["idx"]]
                 if len(ts) != len(sel):
                     return False, f"(d) for_indexes: {len(sel)} selected, {len(ts)} returned"
-                for a, b in zip(ts, sel):
-                    if set_diff([a], [b], ptol, ""):
-                        return False, "(d) for_indexes: returned triangle differs from the selected one"
+                d = set_diff(ts, sel, ptol, "(d) for_indexes: returned vs selected triangles")
+                if d:
+                    return False, d
         if not is_arr and "array_route" in obs:
             # both representations of the same set give the same triangles after the same chain
             ar = [fr_tri(t) for t in obs["array_route"]["triangles"]]
@@ -728,10 +728,13 @@ class C20(PropertyCheck):
 
     def theorems_for(self, case):
         if "shape" in case:
-            return ["C20.d_point_mask_complete", "C20.d_shape_masks_contain_reference_point"]
+            return ["C20.d_point_mask_iff", "C20.d_shape_masks_contain_reference_point"]
         if case["kind"] == "coord":
-            return ["C20.b_coord_children", "C20.c_coord_neighbours", "C20.d_array_view"]
-        return ["C20.a_children_tile", "C20.a_area_conserved", "C20.c_neighbourhood"]
+            return ["C20.b_coord_up_sample_structure", "C20.b_coord_children_are_midpoint_children",
+                    "C20.b_coord_up_sample_same_triangles", "C20.c_coord_neighbours",
+                    "C20.c_coord_neighbourhood_same_triangles", "C20.d_array_view", "C20.d_for_indexes"]
+        return ["C20.a_up_sample_is_midpoint_children", "C20.a_area_conserved",
+                "C20.a_children_cover_parent", "C20.c_neighbourhood_array", "C20.d_for_indexes"]
 
 
 CHECK = C20()
